@@ -324,6 +324,10 @@ class Domain:
         -> list of ('ok', value, state) / ('exc', Exc, state), or None when the depth bound is reached."""
         if self._depth >= self.max_inline_depth or any(fr["fn"] is finfo for fr in self.frames):
             return None
+        if getattr(finfo, "_is_generator", None) is None:
+            finfo._is_generator = any(isinstance(n, (ast.Yield, ast.YieldFrom)) for n in ast.walk(finfo.node) if n is not finfo.node and not isinstance(n, (ast.FunctionDef, ast.Lambda))) and not any("contextmanager" in d for d in getattr(finfo, "decorators", ()))
+        if finfo._is_generator:
+            return None  # calling a generator function runs none of its body: the result is an iterator this engine does not model
         bound = self.bind_params(finfo, args, kwargs)
         env = {k: v for k, v in state.d.items() if self.is_global_key(k)}
         env.update(bound)
@@ -1332,12 +1336,12 @@ class Interp:
                         st_f = s1 if not t else None
                     if is_and:
                         if st_f is not None:
-                            results.append((v if t is not None else TOP, st_f))
+                            results.append((v, st_f))  # `x and y` is x itself when x is falsy
                         if st_t is not None:
                             nxt.append(st_t)
                     else:
                         if st_t is not None:
-                            results.append((v if t is not None else TOP, st_t))
+                            results.append((v, st_t))  # `x or y` is x itself when x is truthy
                         if st_f is not None:
                             nxt.append(st_f)
             cur = nxt
